@@ -82,21 +82,36 @@ def run(eng, rep, tier):
                   "are not productions of the user's grammar)" % cname, s0, site=site_of(prog, f0, f0.node))
     # -------------------------------------------------------------- C15.3 CYK back-pointers and root
     CYK = "pyformlang.cfg.cyk_table.CYKTable"
-    f = prog.functions.get(CYK + "._propagate_in_cyk_table")
+    # the table is filled by the constructor (through private helpers, however they are cut): own frames
+    f = prog.method("CYKTable", "__init__")
     s = interp.run_entry(f, CYK)
-    nodes = [ev for ev in own(s) if ev.kind == "new" and ev.callee.endswith("CYKNode")]
+    nodes = [ev for ev in own(s) if ev.kind == "new" and ev.callee.endswith("CYKNode") and len(ev.args) == 3]
     CELL = ("self", ("_cyk_table",))
-    ok = bool(nodes) and all(len(ev.args) == 3 and CELL in deps_of(ev.args[1]) and CELL in deps_of(ev.args[2]) and
+    ok = bool(nodes) and all(CELL in deps_of(ev.args[1]) and CELL in deps_of(ev.args[2]) and
                              ("self", ("_productions_d",)) in deps_of(ev.args[0]) for ev in nodes)
     ob.decide("R1", "C15.3", f, "both-back-pointers", ok,
               "an inner CYK node is (head, left node, right node) with head taken from the productions by body",
               "inner CYK nodes do not carry both nodes of the window pair that produced them", s,
               site=(nodes[0].site.to_json() if nodes else site_of(prog, f, f.node)))
     ni = prog.functions.get("pyformlang.cfg.cyk_table.CYKNode.__init__")
-    order = [ast.unparse(c) for c in ast.walk(ni.node) if isinstance(c, ast.Call) and isinstance(c.func, ast.Attribute)
-             and c.func.attr == "append"]
-    ob.decide("R1", "C15.3", ni, "children-left-then-right", order == ["self.sons.append(left_son)", "self.sons.append(right_son)"],
-              "children are stored left then right", "CYKNode stores its children in another order: %s" % order, None,
+    sn = interp.run_entry(ni, "pyformlang.cfg.cyk_table.CYKNode")
+    # children order: in the statements that put something into self.sons, taken in execution order, the left child
+    # is mentioned before the right child (the two child parameters are the last two of the constructor)
+    kids = ni.params[-2:]
+    SONS = ("self", ("sons",))
+    mention = []
+    for ev in sn.events:
+        if ev.kind == "write" and ev.func is ni and ((ev.recv is not None and SONS in ev.recv.alias) or SONS in ev.target):
+            names_ = sorted((x for x in ast.walk(ev.node) if isinstance(x, ast.Name) and x.id in kids and
+                             isinstance(x.ctx, ast.Load)), key=lambda x: (x.lineno, x.col_offset))
+            for x in names_:
+                # a name inside a test (`if left_son is not None`) is not the stored value
+                if not any(isinstance(a, ast.Compare) and any(y is x for y in ast.walk(a)) for a in ast.walk(ev.node)):
+                    mention.append(x.id)
+    order_ok = len(kids) == 2 and kids[0] in mention and kids[1] in mention and \
+        mention.index(kids[0]) < mention.index(kids[1]) and mention[-1] == kids[1]
+    ob.decide("R1", "C15.3", ni, "children-left-then-right", order_ok,
+              "children are stored left then right", "CYKNode stores its children in another order: %s" % mention, sn,
               site=site_of(prog, ni, ni.node))
     f = prog.functions.get(CYK + ".get_parse_tree")
     s = interp.run_entry(f, CYK)
